@@ -346,3 +346,20 @@ package vuego
 //@     (visited(k) ==> (k in t.frontMatter) && (k in dataMap) && dataMap[k] == t.frontMatter[k]) &&
 //@     (!visited(k) ==> ((k in dataMap) == (passedHas(vars, k) || (k in t.vue.initialData))) &&
 //@        ((k in dataMap) ==> dataMap[k] == (passedHas(vars, k) ? passedGet(vars, k) : t.vue.initialData[k])))
+
+// ---- overlay filesystem (C18) ----
+
+//@ spec func firstOpen(chain []fs.FS, name string, k int) int decreases len(chain) - k {
+//@   (k < 0 || k >= len(chain)) ? 0 - 1 : ((chain[k] != nil && fsOpens(chain[k], name)) ? k : firstOpen(chain, name, k + 1)) }
+
+//@ func (o *OverlayFS) Open(name) (f, err)
+//@   modifies nothing
+//@   ensures C18.first.wins: firstOpen(o.chainFS, name, 0) >= 0 ==> err == nil && f == fsFile(o.chainFS[firstOpen(o.chainFS, name, 0)], name)
+//@   ensures C18.notexist: firstOpen(o.chainFS, name, 0) < 0 ==> f == nil && err == globalVal("fs.ErrNotExist")
+//@   loop 0 invariant bounds: 0 <= $i && $i <= len(o.chainFS)
+//@   loop 0 invariant C18.scan: firstOpen(o.chainFS, name, 0) == firstOpen(o.chainFS, name, $i)
+
+//@ func NewOverlayFS(upper, lower) (o)
+//@   modifies nothing
+//@   ensures C18.chain.order: fresh(o) && len(o.chainFS) == len(lower) + 1 && o.chainFS[0] == upper &&
+//@     forall i int :: 0 <= i && i < len(lower) ==> o.chainFS[i + 1] == lower[i]
